@@ -14,6 +14,7 @@ use serde_json::json;
 
 #[derive(Clone, Copy, Debug, PartialEq)]
 enum Tr {
+    WeightsTinyUnit,
     WeightsPow2,
     WeightsAny,
     Degenerate,
@@ -24,7 +25,7 @@ enum Tr {
     Swap,
 }
 
-const ALL: [Tr; 8] = [Tr::WeightsPow2, Tr::WeightsAny, Tr::Degenerate, Tr::Rename, Tr::PayoffPow2, Tr::PayoffAny, Tr::PayoffShift, Tr::Swap];
+const ALL: [Tr; 9] = [Tr::WeightsTinyUnit, Tr::WeightsPow2, Tr::WeightsAny, Tr::Degenerate, Tr::Rename, Tr::PayoffPow2, Tr::PayoffAny, Tr::PayoffShift, Tr::Swap];
 
 struct Applied {
     tree: HNode,
@@ -66,6 +67,10 @@ fn apply(rng: &mut Rng, tree: &HNode, tr: Tr, scale: f64) -> Applied {
             }),
             HNode::Chance { info, outs } => {
                 let f = match tr {
+                    // weights written in deep-subnormal units (positive and finite, hence legal);
+                    // only used on trees whose weights are small multiples of 1/8, so that the
+                    // scaled weights and all their partial sums are exact
+                    Tr::WeightsTinyUnit => (2.0f64).powi(-520) * (2.0f64).powi(520 - rng.range(1030, 1060) as i32),
                     Tr::WeightsPow2 => (2.0f64).powi(rng.range(0, 10) as i32 - 5),
                     Tr::WeightsAny => *rng.pick(&[1.0, 0.3, 3.0, 0.1, 7.0, 1.0 / 3.0]),
                     _ => 1.0,
@@ -100,7 +105,7 @@ fn apply(rng: &mut Rng, tree: &HNode, tr: Tr, scale: f64) -> Applied {
     }
     let t = rec(tree, tr, rng, &mut counter, c_any, pow, shift);
     let (mul, add, swap, exact) = match tr {
-        Tr::WeightsPow2 | Tr::Degenerate | Tr::Rename => (1.0, 0.0, false, true),
+        Tr::WeightsTinyUnit | Tr::WeightsPow2 | Tr::Degenerate | Tr::Rename => (1.0, 0.0, false, true),
         Tr::WeightsAny => (1.0, 0.0, false, false),
         Tr::PayoffPow2 => (pow, 0.0, false, true),
         Tr::PayoffAny => (c_any, 0.0, false, false),
@@ -152,7 +157,19 @@ pub fn run(ctx: &mut Ctx) {
             }
         };
         let scale = orig.flat.max_abs_payoff().max(1e-300);
-        let tr = ALL[rng.below(ALL.len())];
+        let mut tr = ALL[rng.below(ALL.len())];
+        if tr == Tr::WeightsTinyUnit {
+            fn dyadic(n: &HNode) -> bool {
+                match n {
+                    HNode::Term(_) => true,
+                    HNode::Chance { outs, .. } => outs.iter().all(|(w, k)| (w * 8.0).fract() == 0.0 && *w <= 1024.0 && dyadic(k)),
+                    HNode::Player { acts, .. } => acts.iter().all(|(_, k)| dyadic(k)),
+                }
+            }
+            if !dyadic(&tree) {
+                tr = Tr::WeightsPow2;
+            }
+        }
         let ap = apply(rng, &tree, tr, orig.flat.max_abs_payoff());
         let trn = format!("{:?}", tr);
         let new = match Prepared::new(&ap.tree) {
@@ -313,7 +330,7 @@ pub fn run(ctx: &mut Ctx) {
         ctx.sample(3, || json!({"game": tree.brief(100), "transformation": trn, "transformed": ap.tree.brief(100), "cfg": cfg.describe(), "max_strategy_difference": worst}));
     });
     ctx.finish(crate::report::extra(
-        "cases = (game, transformation, profile or solve): G1/G2 games (<=400 nodes) x transformations {chance weights x 2^j per node, chance weights x arbitrary c per node, insertion of single-outcome chance and single-action decision nodes at 30% of the edges (removal is the inverse), consistent renaming of infosets/actions/chance infosets, payoffs x 2^j, payoffs x arbitrary c, payoffs + constant (constant in {3,-1.5,0.1,100} x max|payoff|), player swap with negated payoffs}. Evaluation level: get_info of two profiles carried through the name bijection must give utility mul*u+add (negated for the swap) and regrets mul*r (swapped for the swap): bitwise where the arithmetic is identical, else within 1e-9. Solver level: solve(Full, T in {1,2,3,5,10,30}, one thread) on both games; strategies through the bijection and bounds x mul must be bit-identical for the exact transformations and within 1e-9 otherwise, where a difference is inconclusive only if a trace (hook H3) passed within 1e-9 of a regret-matching discontinuity. Payoff-scaling transformations use parameter sets with softmax weight in {0,+-inf} (a finite weight is a temperature and not scale-free by documentation). distinct = hash(tree, profile or configuration, transformation); non-trivial = game has a decision infoset.",
+        "cases = (game, transformation, profile or solve): G1/G2 games (<=400 nodes) x transformations {chance weights x 2^-1030..2^-1060 per node (deep-subnormal units; on trees with dyadic weights, where this is exact), chance weights x 2^j per node, chance weights x arbitrary c per node, insertion of single-outcome chance and single-action decision nodes at 30% of the edges (removal is the inverse), consistent renaming of infosets/actions/chance infosets, payoffs x 2^j, payoffs x arbitrary c, payoffs + constant (constant in {3,-1.5,0.1,100} x max|payoff|), player swap with negated payoffs}. Evaluation level: get_info of two profiles carried through the name bijection must give utility mul*u+add (negated for the swap) and regrets mul*r (swapped for the swap): bitwise where the arithmetic is identical, else within 1e-9. Solver level: solve(Full, T in {1,2,3,5,10,30}, one thread) on both games; strategies through the bijection and bounds x mul must be bit-identical for the exact transformations and within 1e-9 otherwise, where a difference is inconclusive only if a trace (hook H3) passed within 1e-9 of a regret-matching discontinuity. Payoff-scaling transformations use parameter sets with softmax weight in {0,+-inf} (a finite weight is a temperature and not scale-free by documentation). distinct = hash(tree, profile or configuration, transformation); non-trivial = game has a decision infoset.",
         &["name bijection is applied by the harness; infoset alignment by name"],
     ));
 }
